@@ -360,9 +360,20 @@ def c10_4(c: Ctx) -> None:
     def is_rec(n):
         return any(call_name(x) == u.name and isinstance(x.func, ast.Attribute) and U(x.func.value) == ch for x in q.node_calls(n))
 
-    p = search([(head, ())], is_target=lambda n, d: n is head, is_barrier=lambda n, d: is_rec(n), edge_ok=lambda n, e, d: None if (e.is_exc or (n is head and e.label != 'iter')) else d)
+    res_atom = f'{ch}.event_results'
+    fres = Facts(lambda a: a == res_atom)
+
+    def no_results_skip(n, e) -> bool:
+        # a child without results has nothing pending and no children of its own (event_children is derived from the results): skipping it skips nothing
+        if n.kind != 'if' or e.label not in ('true', 'false') or any(isinstance(x, ast.Call) for x in ast.walk(n.ast.test)):
+            return False
+        env_ = fres.assume(n.ast.test, e.label == 'true', {})
+        return env_ is not None and fres.eval(ast.parse(res_atom, mode='eval').body, env_) is False
+
+    p = search([(head, ())], is_target=lambda n, d: n is head, is_barrier=lambda n, d: is_rec(n),
+               edge_ok=lambda n, e, d: None if (e.is_exc or (n is head and e.label != 'iter') or no_results_skip(n, e)) else d)
     if p is None:
-        c.ok(where(u, loop), f'every iteration recurses into {ch}.{u.name}(...)')
+        c.ok(where(u, loop), f'every iteration recurses into {ch}.{u.name}(...) (a child without results may be skipped)')
     else:
         c.fail(u, f'an iteration can skip the recursion into {ch}', 'grandchildren keep pending results after a timeout', node=loop, witness=c.path(head, p))
     for n in ast.walk(loop):
@@ -404,8 +415,12 @@ def check_task_done_pairing(c: Ctx) -> None:
                 var_ = st.targets[0].id if isinstance(st, ast.Assign) and isinstance(st.targets[0], ast.Name) else None
                 nn = Facts(lambda a, var_=var_: a == var_ or a.startswith('__inl_'), rhs_value=lambda v: 'NN' if isinstance(v, (ast.Call, ast.Await)) and call_name(v.value if isinstance(v, ast.Await) else v) in ('get', 'get_nowait') else None,
                            cg=c.cg, unit=u) if var_ else None  # a queue hands out events, never None
-                p = q.pair_search(g, n, lambda x: is_task_done(x, qexpr), facts=nn,
-                                  exits=lambda x: x.kind in ('exit', 'raise_exit') or (x is not n and x.kind in ('for', 'while') and q.lexically_in(st, x.ast)))
+                p = None
+                # (the dequeue may sit in a folded helper: the flags that say which of its returns were taken are known on arrival)
+                for env0 in ((q.envs_at(g, n, nn) if nn is not None else None) or [{}]):
+                    env0 = {k: v for k, v in env0.items() if k.startswith('__inl_')}
+                    p = p or q.pair_search(g, n, lambda x: is_task_done(x, qexpr), facts=nn, env=env0,
+                                           exits=lambda x: x.kind in ('exit', 'raise_exit') or (x is not n and x.kind in ('for', 'while') and q.lexically_in(st, x.ast)))
                 if p is None:
                     c.ok(where(u, st), f'every exit after `{q.stmt_text(st, 60)}` (return, exception, cancellation at any await) passes {qexpr}.task_done()')
                 else:
